@@ -33,17 +33,19 @@ void Resource::lock(OpType opType) {
 
     if (m_queue.empty() && (m_activeOp == OpType::None || (m_activeOp == opType && opType == OpType::Read))) {
         m_activeOp = opType;
+        ++m_activeCount;
     } else {
         auto id = m_idCounter++;
 
         enqueue(opType);
 
+        // queued requests are counted as active by `select()` at the moment
+        // they are admitted, not when they wake up: otherwise a sibling that
+        // unlocks first would see the resource as fully unlocked
         m_cv.wait(lock, [id, this] {
             return id < m_upperUnlockBound;
         });
     }
-
-    ++m_activeCount;
 }
 
 void Resource::unlock(OpType opType) {
@@ -88,6 +90,7 @@ void Resource::select() {
     m_queue.pop_front();
 
     m_activeOp = op.type;
+    m_activeCount = static_cast<size_t>(op.upperBound - m_upperUnlockBound);
     m_upperUnlockBound = op.upperBound;
 }
 } // tulz::rwp
